@@ -324,6 +324,14 @@ class AbsInt:
                         return ("rv", K(n))
                     if it["k"] in ("slice", "array") or it["s"] == "str":
                         return ("s", K(len(val["bytes"])))
+                    if it["k"] == "adt" and it["path"] == "core::ops::range::RangeInclusive" and it.get("args") and "t" in it["args"][0]:
+                        et = self.ty(it["args"][0]["t"])
+                        w = {"u8": 1, "u16": 2, "u32": 4, "u64": 8, "usize": 8}.get(et["s"]) if et["k"] == "prim" else None
+                        raw = bytes(val["bytes"])
+                        if w and len(raw) >= 2 * w:
+                            a, b = int.from_bytes(raw[:w], "little"), int.from_bytes(raw[w:2 * w], "little")
+                            # field order of start/end in the layout is not relied upon: a non-empty constant range has start <= end
+                            return ("rv", ("t", (K(min(a, b)), K(max(a, b))), "core::ops::range::RangeInclusive"))
                     return self.top(st, c["ty"], key)
                 if t["k"] == "array":
                     return ("a", len(val["bytes"]))
